@@ -114,8 +114,31 @@ def violation(schedule_times, service_times, **kw):
     return None
 
 
+def context_hooks_violation():
+    """one logical request that puts several wire requests on the wire (scroll pages, retries): the recorded span is first start .. last end"""
+    from unittest import mock
+
+    from esrally.client import context
+
+    holder = context.RequestContextHolder()
+    for clock in ([1.0, 1.5, 2.0, 2.5, 3.0, 3.5], [10.0, 10.1, 10.2, 10.3], [5.0, 6.0]):
+        it = iter(clock)
+        with mock.patch("time.perf_counter", lambda: next(it)):
+            with holder.new_request_context() as ctx:
+                for _ in range(len(clock) // 2):
+                    holder.on_request_start()
+                    holder.on_request_end()
+                got = (ctx.request_start, ctx.request_end)
+        if got != (clock[0], clock[-1]):
+            return f"wire requests at clock readings {clock} (start, end, start, end, ..): recorded span {got}, expected ({clock[0]}, {clock[-1]})"
+    return None
+
+
 def main(rec):
     n = 0
+    v = context_hooks_violation()
+    if v:
+        done(True, v)
     for times in ([0, 0, 0, 0], [0, 0.1, 0.2, 0.3, 0.4], [0, 0.5, 1.0], [0, 0.01, 0.02, 0.03]):
         for sts in ([0.01] * 5, [0.3, 0.01, 0.01, 0.2, 0.01], [0.05, 0.6, 0.05, 0.05, 0.05]):
             for ramp, preset, cp in itertools.product((0.0, 0.25), (False, True), (False, True)):
